@@ -415,7 +415,7 @@ func TestC12AggEntryBinding(t *testing.T) {
 		}
 		recv := w.ms[mod(c.Victim+1, w.n)]
 		hq, err := recv.Auth.VerifyAggregateQC(hotstuff.NewAggregateQC(qcs, agg, 5))
-		if err != nil && kit.QuirkAgg(recv, hotstuff.NewAggregateQC(qcs, agg, 5)) {
+		if err != nil && kit.QuirkAgg(recv, hotstuff.NewAggregateQC(qcs, agg, 5), err) {
 			// the premise (an honest aggregate certificate verifies) fails for this input because of the pairing library's
 			// false negative, a known finding of C02: nothing about the wire encoding can be concluded from this case
 			return common.OK(false, "", "premise fails: bls pairing false negative (known finding of C02)")
